@@ -131,6 +131,15 @@ def _traffic(ctx):
             c07._impl(c07.gen_sequence(rng, pool))
     except Exception as e:  # noqa
         ctx.notes.append(f"traffic before the second look could not be produced: {type(e).__name__}")
+    # clients of both API classes come and go (they read the port table for their default port)
+    try:
+        import aioswitcher.api as A
+        for _ in range(3):
+            for cls in (A.SwitcherType1Api, A.SwitcherType2Api):
+                cls("127.0.0.1", "a123bc", "18")
+                cls("127.0.0.1", "a123bc", "18", 12345)
+    except Exception as e:  # noqa
+        ctx.notes.append(f"API clients could not be constructed before the second look: {type(e).__name__}")
     # datagrams that pass the gate and then fail somewhere inside the decoding (unknown direction, undecodable name, unknown enum
     # value), fed last so that whatever they leave behind is still there
     for v in pool:
